@@ -71,7 +71,16 @@ fn main() {
         i += 1;
     }
     install_panic_hook();
-    let _ = replay;
+    if let Some(path) = &replay {
+        // artefact names are <ID>-<tier>-<hash>.json: replay in the tier that produced it
+        let name = std::path::Path::new(path).file_name().map(|n| n.to_string_lossy().to_string()).unwrap_or_default();
+        if name.contains("-thorough-") {
+            tier = Tier::Thorough;
+        } else if name.contains("-quick-") {
+            tier = Tier::Quick;
+        }
+        unsafe { std::env::set_var("VERIF_REPLAY_ARTEFACT", path) };
+    }
     let code = match id.as_str() {
         "C01" => crash::c01(tier),
         "C02" => crash::c02(tier),
